@@ -82,7 +82,7 @@ func countExpr(e *ebnf.Expression, c *ebnfCounts) {
 // parsed tree survives print + parse unchanged.
 func TestVerif_C14_EBNF(t *testing.T) {
 	res := &xResult{Check: "Parser.String EBNF", Property: "C14", Exhaustive: true,
-		Bound: "the grammar family of the C08 stand-in: one production with <= 4 nodes, two productions with <= 2 and <= 3 nodes (thorough: one production <= 5, two productions <= 3 and <= 3) over {literal \"x\", literal a\"\\b%d\\ (needs escaping, holds a formatting verb, ends in a backslash), production, sequence, choice, ? * + !, ~, (?= ), (?! ), capture, redundant parentheses}; plus 9 grammars built with Build from struct tags: union root, union field, anonymous and embedded struct types, Parseable and custom productions, ( x* )?",
+		Bound: "the grammar family of the C08 stand-in: one production with <= 4 nodes, two productions with <= 2 and <= 3 nodes (thorough: one production <= 5, two productions <= 3 and <= 3) over {literal \"x\", literal a\"\\b%d\\ (needs escaping, holds a formatting verb, ends in a backslash), production, sequence, choice, ? * + !, ~, (?= ), (?! ), capture, redundant parentheses}; plus 10 grammars built with Build from struct tags (one with type names starting with a non-ASCII letter): union root, union field, anonymous and embedded struct types, Parseable and custom productions, ( x* )?",
 		Rule: "distinct grammars; non-trivial = contains a modifier, ~ or a lookahead group"}
 	one, twoA, twoB := 4, 2, 3
 	if os.Getenv("VERIF_TIER") == "thorough" {
@@ -242,7 +242,8 @@ func ebnfCase[G any](res *xResult, userCode map[string]bool, options ...particip
 		return
 	}
 	rootName := name[strings.LastIndex(name, ".")+1:]
-	rootName = strings.ToUpper(rootName[:1]) + rootName[1:]
+	fr := []rune(rootName)
+	rootName = strings.ToUpper(string(fr[:1])) + string(fr[1:])
 	if len(tree.Productions) == 0 || tree.Productions[0].Production != rootName {
 		res.violate("root production %s is not first for the tag-built grammar %s: %q", rootName, name, text)
 	}
@@ -284,6 +285,13 @@ func ebnfCase[G any](res *xResult, userCode map[string]bool, options ...particip
 	}
 }
 
+type ébauche struct {
+	A string    `@Ident`
+	B *élément `@@?`
+}
+type élément struct {
+	C string `"," @Ident`
+}
 type ebAnyText struct {
 	K string `@"":Ident "="`
 	V string `@"":Int`
@@ -309,6 +317,7 @@ func ebnfNamedCases(res *xResult) {
 	} else if text := p2.String(); !strings.Contains(text, "EbUC = ") || !strings.Contains(text, "EbUA | EbUB | EbUC") {
 		res.violate("String() of a second parser for the same root type with another Union option does not describe that parser: %q", text)
 	}
+	ebnfCase[ébauche](res, nil)
 	// a literal that stands for any text of a token type, and a custom production of an unnamed interface type
 	ebnfCase[ebAnyText](res, nil)
 	ebnfCase[ebAnyCustom](res, map[string]bool{"Anon1": true, "Anon2": true, "Anon3": true},
